@@ -103,6 +103,7 @@ Proof.
   intros Hwf. unfold wf_ident in Hwf. repeat (apply andb_true_iff in Hwf as [Hwf ?]).
   assert (Hts : (0 <= id_ts i < 2 ^ 63)%Z) by lia.
   assert (Hz : wf_zone (id_tz i) = true) by assumption.
+  clear - Hts Hz.
   unfold encode_time. rewrite Z.max_l by lia. rewrite (zone_form _ Hz).
   set (a := Z.to_N (Z.abs (id_tz i))).
   assert (Hsp : has_byte SPC (print_dec (Z.to_N (id_ts i))) = false).
@@ -153,6 +154,7 @@ Lemma encode_time_tchar i : wf_ident i = true -> forallb tchar (encode_time i) =
 Proof.
   intros Hwf. unfold wf_ident in Hwf. repeat (apply andb_true_iff in Hwf as [Hwf ?]).
   assert (Hz : wf_zone (id_tz i) = true) by assumption.
+  clear - Hz.
   unfold encode_time. rewrite (zone_form _ Hz). rewrite !forallb_app. apply andb_true_iff. split.
   - pose proof (print_dec_digits (Z.to_N (Z.max (id_ts i) 0))) as H'. revert H'.
     generalize (print_dec (Z.to_N (Z.max (id_ts i) 0))). intros l. induction l as [|x l IH]; cbn [forallb]; [reflexivity|].
@@ -204,7 +206,7 @@ Proof.
   pose proof (decode_time_enc (id_name i) (id_email i) _ Hwf) as HD.
   destruct i as [nm em ts tz]. cbn [id_name id_email id_ts id_tz] in *.
   unfold encode_ident. cbn [id_name id_email].
-  set (T := encode_time (mk_ident nm em ts tz)) in *.
+  set (T := encode_time (mk_ident nm em ts tz)) in *. clearbody T.
   unfold decode_ident.
   assert (A1 : has_byte LT (em ++ GT :: SPC :: T) = false)
     by (rewrite has_byte_app, !has_byte_cons, HTlt, He2; reflexivity).
@@ -220,7 +222,7 @@ Proof.
   rewrite (last_index_of_unique _ _ _ A2).
   rewrite !app_length. cbn [List.length].
   replace (Nat.ltb (List.length nm + S (S (List.length em))) (List.length nm + 1)) with false
-    by (symmetry; apply Nat.ltb_ge; lia).
+    by (clear; symmetry; apply Nat.ltb_ge; lia).
   (* name *)
   replace ((nm ++ SPC :: LT :: em) ++ GT :: SPC :: T) with ((nm ++ [SPC]) ++ LT :: em ++ GT :: SPC :: T)
     by (now rewrite <- !app_assoc).
@@ -229,25 +231,24 @@ Proof.
   unfold trim_both. rewrite trim_right_snoc, (trim_right_id _ _ Hl), (trim_left_id _ _ Hf).
   (* email *)
   unfold slice.
-  replace (S (List.length (nm ++ [SPC]))) with (List.length ((nm ++ [SPC]) ++ [LT])) by (rewrite !app_length; cbn; lia).
+  replace (S (List.length (nm ++ [SPC]))) with (List.length ((nm ++ [SPC]) ++ [LT])) by (clear; rewrite !app_length; cbn [List.length]; lia).
   replace ((nm ++ [SPC]) ++ LT :: em ++ GT :: SPC :: T) with (((nm ++ [SPC]) ++ [LT]) ++ em ++ GT :: SPC :: T)
     by (now rewrite <- !app_assoc).
   rewrite skipn_app_exact.
   replace (List.length nm + S (S (List.length em)) - List.length ((nm ++ [SPC]) ++ [LT]))%nat with (List.length em)
-    by (rewrite !app_length; cbn; lia).
+    by (clear; rewrite !app_length; cbn [List.length]; lia).
   rewrite firstn_app_exact.
   (* time *)
-  replace (Nat.ltb (List.length nm + S (S (List.length em)) + 2)
-                   (List.length (nm ++ [SPC]) + S (List.length em + S (S (List.length T))))) with true.
-  2:{ symmetry. apply Nat.ltb_lt. rewrite app_length. cbn. destruct T; [contradiction|]. cbn. lia. }
+  assert (HTlen : (0 < List.length T)%nat) by (destruct T; [contradiction|cbn [List.length]; clear; lia]).
   replace (List.length nm + S (S (List.length em)) + 2)%nat with (List.length (((nm ++ [SPC]) ++ [LT]) ++ em ++ [GT; SPC]))
-    by (rewrite !app_length; cbn; lia).
+    by (clear; rewrite !app_length; cbn [List.length]; lia).
   replace ((((nm ++ [SPC]) ++ [LT]) ++ em ++ GT :: SPC :: T)) with ((((nm ++ [SPC]) ++ [LT]) ++ em ++ [GT; SPC]) ++ T)
     by (now rewrite <- !app_assoc).
-  rewrite skipn_app_exact. exact HD.
+  rewrite skipn_app_exact.
+  match goal with |- (if ?b then _ else _) = _ => replace b with true end; [exact HD|].
+  symmetry. apply Nat.ltb_lt. clear - HTlen. rewrite !app_length. cbn [List.length]. lia.
 Qed.
 
-(* the encoded identity holds no LF, and its only brackets are the two written *)
 Lemma encode_ident_no_lf i : wf_ident i = true -> no_lf (encode_ident i) = true.
 Proof.
   intros Hwf.
@@ -256,6 +257,7 @@ Proof.
   assert (HTlf : has_byte LF (encode_time i) = false)
     by (apply (has_byte_forall tchar); [intros x Hx; apply (tchar_not x 10); [right; now right|exact Hx]|exact HT]).
   assert (E : forall b, no_lf b = negb (has_byte LF b)).
-  { induction b as [|x b IH]; [reflexivity|]. rewrite no_lf_cons, IH, has_byte_cons. rewrite N.eqb_sym. now destruct (x =? LF). }
+  { induction b as [|x b IH]; [reflexivity|]. rewrite no_lf_cons, IH, has_byte_cons, (N.eqb_sym x LF).
+    destruct (LF =? x), (has_byte LF b); reflexivity. }
   rewrite E. unfold encode_ident. rewrite !has_byte_app, !has_byte_cons, Hn1, He1, HTlf. reflexivity.
 Qed.
